@@ -40,6 +40,8 @@ var classes = []struct {
 	{"no-at", "noat", false, false, false},
 	{"two-at", "a@b@c", false, false, false},
 	{"other-domain-user", "bob@other.org", false, true, false},
+	{"unlisted-sub-domain", "fresh%d@sub.example.com", false, false, false},
+	{"look-alike-domain", "fresh%d@notexample.com", false, false, false},
 }
 
 var spamVariants = []struct {
@@ -68,7 +70,7 @@ var spamVariants = []struct {
 func main() {
 	o, rep := hx.Init("C17")
 	hx.Quiet()
-	rep.Rule = "cells of the product allowed_domains{empty, hit list, miss list} x reject_unknown_user x recipient class{existing, unknown, same local part in another domain, role address, disabled, no @, two @, user of another domain} x recipient count{below, at max_recipients} x size{≤, > max_size} x quota{off, on-under, on-over} x 15 spam-header variants x default_folder{INBOX, existing other, not yet existing} x domain letter case, each played as one LMTP transaction; RCPT code, DATA code and the (store, folder) that gained the message are compared with the model. Distinct by cell; non-trivial when the recipient reaches DATA"
+	rep.Rule = "cells of the product allowed_domains{empty, hit list, miss list} x reject_unknown_user x recipient class{existing, unknown, same local part in another domain, role address, disabled, no @, two @, user of another domain, user in an unlisted sub-domain of an allowed domain, look-alike domain} x recipient count{below, at max_recipients} x size{≤, > max_size} x quota{off, on-under, on-over} x 15 spam-header variants x default_folder{INBOX, existing other, not yet existing} x domain letter case, each played as one LMTP transaction; RCPT code, DATA code and the (store, folder) that gained the message are compared with the model. Distinct by cell; non-trivial when the recipient reaches DATA"
 	dir, cleanup := hx.WorkDir("c17")
 	defer cleanup()
 	w, err := world.New(dir, "example.com")
@@ -407,6 +409,7 @@ func find(w *world.World, token, folder string) []string {
 	users := []string{"alice@example.com", "bob@other.org", "dis@example.com", "filler@example.com", "a@b", "a@c"}
 	if strings.Contains(token, "tok") {
 		users = append(users, fmt.Sprintf("nobody%s@example.com", strings.TrimPrefix(token, "c17tok")))
+		users = append(users, fmt.Sprintf("fresh%s@sub.example.com", strings.TrimPrefix(token, "c17tok")), fmt.Sprintf("fresh%s@notexample.com", strings.TrimPrefix(token, "c17tok")))
 		users = append(users, fmt.Sprintf("twin%s@example.com", strings.TrimPrefix(token, "c17tok")), fmt.Sprintf("twin%s@other.org", strings.TrimPrefix(token, "c17tok")))
 	}
 	folders := []string{"INBOX", "Spam", "Filed"}
